@@ -281,6 +281,8 @@ def finish(pid, tier, seed, mod, results, problems, wall, replay_path):
                 if v["mechanism"] == mech:
                     print("    witness:", json.dumps(v["witness"])[:1200])
                     break
+        for r_ in inconclusive:
+            print("  (also) problem: %s" % r_.replace("\n", " | ")[:600])
         for mech in new_viol:
             print("VIOLATION property=%s replay=%s" % (pid, replay_files.get(mech, "replays/none")))
         return 1
